@@ -70,7 +70,13 @@ def pair_cases(draw, max_m=8):
         a = draw(st.sampled_from(MARKERS))
         b = draw(st.sampled_from(MARKERS))
     # objective values as plain floats or as numpy float64 (what calc_signed_costs stores)
-    return {"p": p + [a], "q": q + [b], "np": draw(st.booleans())}
+    case = {"p": p + [a], "q": q + [b], "np": draw(st.sampled_from([False, True, "ndarray"]))}
+    if draw(st.integers(0, 2)) == 0:
+        # the comparator object has a past: it compared another pair before, with more (or fewer) objectives - what
+        # the shared default comparator of Archive() sees when a 3-objective study is followed by a 2-objective one
+        k = draw(st.integers(1, max_m + 2))
+        case["prelude"] = [draw(vec(k, "grid")) + [draw(st.sampled_from(MARKERS))] for _ in range(2)]
+    return case
 
 
 def _nt_pair(p, q):
@@ -95,6 +101,8 @@ def check_pareto_pair(case):
             _shared["pareto"] = ParetoDominance()
         sv = _shared["pareto"].compare(npcosts(p, case.get("np")), npcosts(q, case.get("np")))
         cmp_ = ParetoDominance()
+        if case.get("prelude"):
+            cmp_.compare(npcosts(case["prelude"][0], case.get("np")), npcosts(case["prelude"][1], case.get("np")))
         v = cmp_.compare(npcosts(p, case.get("np")), npcosts(q, case.get("np")))
     if sv != v:
         raise Violation("pareto", "stateful-comparator", "a comparator that has been used before answers %r for (%r, %r), a "
@@ -203,6 +211,8 @@ def check_eps(case):
         return {"nt": False, "classes": ["skipped-not-separated"]}
     with guard("epsilon"):
         e = EpsilonDominance(eps if not isinstance(eps, list) else list(eps))
+        if case.get("prelude"):
+            e.compare(npcosts(case["prelude"][0], case.get("np")), npcosts(case["prelude"][1], case.get("np")))
         v = e.compare(npcosts(p, case.get("np")), npcosts(q, case.get("np")))
         w = e.compare(npcosts(q, case.get("np")), npcosts(p, case.get("np")))
     exp = O.verdict(p, q)
